@@ -138,4 +138,7 @@ def _norm(v):
     return v
 
 
-PROP = C01()
+from srccall import with_src  # noqa: E402
+
+# translated source: `_cmpkey` is proved to build exactly the key V.cmpkey that the order theorems are about
+PROP = with_src(C01(), ["_cmpkey"], "PkgProofs.Props.Src.Cmpkey", ["Src._cmpkey_translated", "Src._cmpkey_eq_model"])
